@@ -159,6 +159,15 @@ Proof.
   apply key_of_perm. apply side_perm. lia.
 Qed.
 
+(* every completed edge is a sorted side of some face *)
+Lemma complete_edges_origin faces E :
+  Forall face_ok faces -> In E (complete_edges [] faces) -> exists F i, In F faces /\ i < 3 /\ E = key (rm i F).
+Proof.
+  intros HF HE. unfold complete_edges in HE. cbn [map app] in HE.
+  apply dedup_incl in HE. apply in_flat_map in HE. destruct HE as [F [HFin HE]].
+  destruct (face_sides_in F E (proj1 (Forall_forall _ _) HF F HFin) HE) as [i [Hi ->]]. now exists F, i.
+Qed.
+
 Theorem complete_edges_wf faces :
   Forall face_ok faces -> edges_wf faces (complete_edges [] faces).
 Proof.
